@@ -119,6 +119,16 @@ CLAIMS = {
         "the correspondence; _vector2xy and xy2vector are AST-tied; the full pole_density_function pipeline agrees with the "
         "model. Open findings: absolute epsilon bands for vectors shorter than ~1e-8 and the C07 sector defects in the folded "
         "density."),
+ "C06": dict(category="proof", design_ref="DESIGN.md section 5 C06",
+   technique="Lean 4 theorems: one equivalence relation (left multiplication by a finite rotation group) and every symmetry-aware quantity respects it; proved counter-example for the right-multiplying reduction; relational differential check feeding each operation's output to every other",
+   text="Proved for every finite rotation group and all unit orientations: left-equivalence is an equivalence relation; "
+        "equivalent orientations have reduced dot product 1 (zero angle), the same reduced dot product to any third "
+        "orientation (any symmetry), and crystal directions O'.v = g.(O.v) in one orbit, hence (C07, C08) the same sector "
+        "direction and IPF colour. Orientation.map_into_symmetry_reduced_zone multiplies on the right: proved equivalent only "
+        "when the operation commutes with the orientation (_partial) and proved not equivalent in general (rational witness "
+        "for 222) - an open known finding pinned by orix tests. On the implementation every representative (equivalent() "
+        "members, reduced-zone and Euler-region representatives) is fed to angle_with, the angle to a third orientation, "
+        "in_fundamental_sector and the IPF colour key for all 38 groups."),
 }
 REASONS = {}
 checks = []
